@@ -186,9 +186,15 @@ type harness struct {
 	wd      time.Duration
 	classes map[string]int
 	stop    bool
+	stalled int
 }
 
 func (h *harness) record(cfg cfgT, o *outcome, bad []string, class string) {
+	if o.Stalled {
+		h.stalled++
+		h.out.Count("stalled(no verdict)")
+		return
+	}
 	op := "T " + cfg.toks() + " | " + strings.Join(o.Events, " ")
 	impl := fmt.Sprintf("ok ret=%s written=%s final=1", o.Ret, o.Written)
 	if o.Deadlock {
@@ -281,7 +287,7 @@ func (h *harness) fail(in input, bad []string, observed string) {
 	class := bad[0]
 	h.classes[class]++
 	if h.classes[class] > 1 {
-		if h.classes[class] > 20 {
+		if h.classes[class] > 8 {
 			h.stop = true
 		}
 		return
@@ -396,6 +402,10 @@ func run(repo, dir string, seed uint64, tier, pathsFile string, batch, nbatch in
 		cfg, _ := genCfg(rng, maxN, maxK)
 		o, bad := runFree(cfg, &jit, 2*time.Second)
 		out.Count("class:free-running")
+		if o.Stalled {
+			h.stalled++
+			continue
+		}
 		if len(cfg.Jobs) <= 4 && cfg.Conc <= 3 {
 			impl := "member"
 			if o.Deadlock || o.Leak {
@@ -423,6 +433,9 @@ func run(repo, dir string, seed uint64, tier, pathsFile string, batch, nbatch in
 		}
 	}
 	out.Close()
+	if h.stalled > 50 {
+		return fmt.Errorf("%d runs were starved by the machine (no verdict)", h.stalled)
+	}
 	return nil
 }
 
@@ -484,11 +497,25 @@ func runPersist(cfg cfgT) (*outcome, []string) {
 	done := make(chan error, 1)
 	go func() { done <- g.Persist(res) }()
 	var perr error
-	select {
-	case perr = <-done:
-	case <-time.After(5 * time.Second):
-		o.Deadlock = true
+	got := false
+	for i := 0; i < 120 && !got; i++ {
+		select {
+		case perr = <-done:
+			got = true
+		case <-time.After(500 * time.Millisecond):
+			if n, b := allBlocked(); i >= 4 && n > 0 && b {
+				i = 1000
+			}
+		}
+	}
+	if !got {
 		o.Ret = "none"
+		if _, b := allBlocked(); b {
+			o.Deadlock = true
+		} else {
+			fmt.Fprintln(os.Stderr, "c19: starved: Persist neither returned nor blocked within 60 s")
+			os.Exit(4)
+		}
 	}
 	var bad []string
 	if o.Deadlock {
